@@ -42,6 +42,11 @@ CHECKS = {
             "User-Agent variants (absent, empty, prefix, infix, suffix, case, leading space), probe text in other places, methods, paths, both protocols and probe "
             "support on/off are enumerated; each request is answered locally with 200 OK XOR forwarded exactly once, as the prefix predicate dictates.",
             "Two disagreeing User-Agent lines are a dont-care class (logged). The flag wiring is replicated by the harness."),
+    'C03': ("H2Fingerprint.tla: capture state machine + Marshal refine the ideal FP(history, N) (TLC, all histories up to MaxHist); the history-free "
+            "state graph is edge-covered by paths replayed with a raw-frame HTTP/2 client over TLS against the real proxy, one stack per limit N",
+            "TLC decides latest/first/all/latest semantics, truncation at every limit class and the print format on the specification; the replay ties the "
+            "real processFrame capture + Marshal + injector + backend header to the specification's value after every request of thousands of frame sequences.",
+            "Sequential client (waits for each response); h2raw serializer trusted; quick tier covers a seeded sample of graph edges."),
 }
 
 NOT_YET = {}
